@@ -712,7 +712,12 @@ class CellsImpl(*_cells_impl_base):
         return self.parent.repr_parent() + "." + self.parent.repr_self()
 
     def has_node(self, key):
-        return key in self.data
+        try:
+            return key in self.data
+        except TypeError:
+            # An uncached cells takes unhashable arguments
+            # and holds no values
+            return False
 
     def is_scalar(self):  # TODO: Move to HasFormula
         return len(self.formula.parameters) == 0
